@@ -11,7 +11,7 @@ use crate::ctx::{Ctx, Outcome, Tier};
 use crate::props::Prop;
 use crate::session::{compare, render_session, run_ri, FormResult, RunOpts, SutRun, SutSession};
 use mwv_core::choice::{unhex, Choices};
-use mwv_core::skeleton::{decode, family_programs, Bounds, Odometer, Skeleton};
+use mwv_core::skeleton::{decode, decode_styled, family_programs, Bounds, Odometer, Skeleton, REF_STYLES};
 use mwv_core::sx::{read_all, Sx};
 use serde_json::{json, Value};
 use std::cell::RefCell;
@@ -95,12 +95,17 @@ fn record(ctx: &Ctx, sk: &Skeleton) {
         ctx.class("captured-variable-assigned-after-capture");
     }
     ctx.class(&format!("levels:{}", sk.levels.len()));
+    if sk.ref_style != 0 {
+        ctx.class(&format!("reads-spelled:{}", REF_STYLES[sk.ref_style % REF_STYLES.len()]));
+    }
 }
 
 fn random_case(ctx: &Ctx, bytes: &[u8]) -> Outcome {
     let mut c = Choices::new(bytes);
     let b = Bounds { max_levels: 4, names: 3, modes: 5, actions: 4 };
-    let sk = decode(&mut |n| c.below(n), &b);
+    let mut sk = decode(&mut |n| c.below(n), &b);
+    // the spelling of the reads is drawn last (recorded cases keep their meaning)
+    sk.ref_style = c.below(REF_STYLES.len());
     let forms = sk.program();
     record(ctx, &sk);
     ctx.sample(|| json!({"skeleton": sk.id(), "program": render_session(&forms)}));
@@ -115,7 +120,7 @@ impl Prop for C02 {
         "C02"
     }
     fn rule(&self) -> &'static str {
-        "scope skeletons: nests of procedures over names a b c, each level binding each name as parameter / internal define / let variable / rest parameter or leaving it free, with probe reads and set! writes before and after the creation of the inner closure, the closure called inside its creator, after it returned, and in a second activation. Per name and level an action (untouched / read / assigned before capture / assigned after capture). Exhaustive up to the bound (quick: <=2 levels x 2 names x 4 modes x 4 actions = 65,792 skeletons; thorough adds 5 modes, and 3 levels or 3 names with 3 modes x 2 actions), random samples beyond (4 levels x 3 names x 5 modes), plus 8 fixed families (closures in loops, getter/setter, shared counters). Non-trivial: a name is bound at two levels (shadowing) or a captured variable is assigned after capture; distinct by skeleton id."
+        "scope skeletons: nests of procedures over names a b c, each level binding each name as parameter / internal define / let variable / rest parameter or leaving it free, with probe reads and set! writes before and after the creation of the inner closure, the closure called inside its creator, after it returned, and in a second activation. Per name and level an action (untouched / read / assigned before capture / assigned after capture). Exhaustive up to the bound (quick: <=2 levels x 2 names x 4 modes x 4 actions = 65,792 skeletons; thorough adds 5 modes, and 3 levels or 3 names with 3 modes x 2 actions), the same enumeration at a smaller bound for six other spellings of a read (quasiquote element / dotted tail / vector, let initialiser, nested thunk, cond clause); random samples beyond (4 levels x 3 names x 5 modes x 7 spellings), plus 8 fixed families (closures in loops, getter/setter, shared counters). Non-trivial: a name is bound at two levels (shadowing) or a captured variable is assigned after capture; distinct by skeleton id."
     }
     fn assumptions(&self) -> Vec<&'static str> {
         vec![
@@ -148,6 +153,50 @@ impl Prop for C02 {
             loop {
                 od.start();
                 let sk = decode(&mut |n| od.choose(n), b);
+                if idx % ctx.nshards == ctx.shard {
+                    ctx.beat();
+                    ctx.count(1);
+                    record(ctx, &sk);
+                    let forms = sk.program();
+                    if idx % 3000 == ctx.shard {
+                        ctx.sample(|| json!({"skeleton": sk.id(), "program": render_session(&forms)}));
+                    }
+                    if let Some((sig, detail)) = check_program(&forms, false) {
+                        ctx.report("program", json!({"skeleton": sk.id(), "program": render_session(&forms)}), &sig, &detail);
+                    }
+                }
+                idx += 1;
+                if !od.next() {
+                    break;
+                }
+            }
+        }
+        // the same enumeration with every other spelling of a read (quasiquote element, dotted
+        // tail and vector, let initialiser, nested thunk, cond clause)
+        let styled = if ctx.tier == Tier::Quick {
+            Bounds { max_levels: 2, names: 2, modes: 3, actions: 2 }
+        } else {
+            Bounds { max_levels: 2, names: 2, modes: 4, actions: 4 }
+        };
+        {
+            let mut od = Odometer::new();
+            loop {
+                od.start();
+                // styles 1.. : choose among len-1 and shift
+                let mut first = true;
+                let sk = {
+                    let mut ch = |n: usize| od.choose(n);
+                    let mut sk = decode_styled(&mut |n| {
+                        if first {
+                            first = false;
+                            ch(REF_STYLES.len() - 1)
+                        } else {
+                            ch(n)
+                        }
+                    }, &styled, REF_STYLES.len());
+                    sk.ref_style += 1;
+                    sk
+                };
                 if idx % ctx.nshards == ctx.shard {
                     ctx.beat();
                     ctx.count(1);
